@@ -71,7 +71,10 @@ def _sweep_job(a):
 
 
 COMMUTE_CFGS = ["", "indent_columns=3\nindent_with_tabs=0\nalign_right_cmt_span=3\ncode_width=60\ncmt_width=50\n",
-                "utf8_force=true\nutf8_bom=remove\n", "utf8_force=true\nutf8_bom=add\n"]
+                "utf8_force=true\nutf8_bom=remove\n", "utf8_force=true\nutf8_bom=add\n",
+                # the comment writers take the text of a comment apart and put it together again
+                "cmt_align_doxygen_javadoc_tags=true\ncmt_reflow_mode=2\ncmt_width=40\ncmt_star_cont=true\ncmt_sp_after_star_cont=1\n",
+                "cmt_cpp_to_c=true\ncmt_cpp_group=true\ncmt_c_group=true\ncmt_indent_multi=true\ncmt_convert_tab_to_spaces=true\ncmt_trailing_single_line_c_to_cpp=true\n"]
 
 
 def _commute_job(a):
@@ -79,6 +82,8 @@ def _commute_job(a):
     cfg = os.path.join(tmp, "cm%d.cfg" % i)
     obs.write(cfg, cfgtext)
     ids = []
+    want_na = [ch for ch in text if ord(ch) > 127]
+    naok = True
     for enc in ("utf8", "utf8bom", "utf16le", "utf16be"):
         src = os.path.join(tmp, "cm%d_%s%s" % (i, enc, ext))
         obs.write(src, encode(text, enc))
@@ -98,9 +103,12 @@ def _commute_job(a):
             okenc = so.startswith(want) if want else not so.startswith((b"\xef\xbb\xbf", b"\xff\xfe", b"\xfe\xff"))
         else:
             okenc = so.startswith(bom) if bom else not so.startswith((b"\xef\xbb\xbf", b"\xff\xfe", b"\xfe\xff"))
+        # every character outside ASCII comes out again, in order (no option reorders or rewrites them)
+        if [ch for ch in t if ord(ch) > 127] != want_na:
+            naok = False
         ids.append(hashlib.sha1(t.encode("utf-8", "surrogatepass")).hexdigest()[:12] + ("" if okenc else "!enc"))
     os.unlink(cfg)
-    return {"e": "Commute", "id": "commute|%s" % jid, "ids": ids}
+    return {"e": "Commute", "id": "commute|%s" % jid, "ids": ids, "naok": naok}
 
 
 def run(ctx):
@@ -163,6 +171,8 @@ def run(ctx):
         for k, na in enumerate(NONASCII):
             t = t.replace("// c%d\n" % k, "// c%d %s\n" % (k, na), 1)
         texts.append(("dense_" + lang, t, lang, hazard.EXT[lang]))
+    texts.append(("doccmt", "/**\n * Größe und 参数.\n * @param größe the size in µm\n * @param 参数, б two of them\n * @throws Ünïcode never\n * @return straße */\n"
+                  "int f(int größe);\n// ж trailing\n/* ß */\n/* æ */\nint g; // ø\n", "C", ".c"))
     texts.append(("comments", "\n".join('int v%d; %s\nconst char *w%d = "%s";' % (i, c, i, NONASCII[i % len(NONASCII)]) for i, c in enumerate(COMMENTS)) + "\n", "C", ".c"))
     ins = corpus.inputs()
     ctx.rng.shuffle(ins)
@@ -184,7 +194,7 @@ def run(ctx):
         k += 1
     for i, (jid, t, lang, ext) in enumerate(texts):
         for ci, cfgt in enumerate(COMMUTE_CFGS):
-            if quick and ci in (1, 3) and jid.startswith("corpus"):
+            if quick and ci in (1, 3, 5) and jid.startswith("corpus"):
                 continue
             cj.append((unc, tmp, len(cj), "%s|cfg%d" % (jid, ci), t, lang, ext, cfgt))
     evs += pmap_proc(_commute_job, cj, nproc=14)
@@ -257,6 +267,6 @@ def replay(path):
             return 0 if ev["mismatch"] == -1 else 1
         ev = _commute_job((unc, d, 0, "replay", r["text"], r["lang"], r["ext"], COMMUTE_CFGS[int(r["cfg"][3:])]))
         print(ev)
-        return 0 if len(set(ev["ids"])) == 1 else 1
+        return 0 if len(set(ev["ids"])) == 1 and ev["naok"] else 1
     finally:
         shutil.rmtree(d, ignore_errors=True)
